@@ -168,6 +168,28 @@ CHECKS = {
 
 NOT_YET = {}
 
+# what rounds 3 and 4 added to each check (DESIGN.md 12.7 - 12.9); appended to the level text
+ADDED = {
+ "C01": "Also: candidates outside the documented ranges that the toolkit's own validate() accepts; long-lived message / decoder objects incl. an encoding attempt that fails after validation.",
+ "C02": "Also: refused re-configurations in the middle of traffic; C02 owns the effect clauses on tuning / hopping state.",
+ "C03": "Also: flood sessions (more than 512 bursts pending), multi-operation socket scenarios, three pre-emptions in thorough.",
+ "C04": "Also: valid messages through one long-lived DATAInterface with sends that fail in between; trxcon's receive callback re-entered by the uplink path (RTS.ind answered with BURST.req).",
+ "C05": "Also: measure sessions (every arrangement of idle / tuned / hopping transceivers), integer arguments in non-canonical spelling, the SETFH text trxcon composes from a hopping list (or its refusal as a whole) judged by TrxconTrace.",
+ "C06": "Also: well-formed frames for unclaimed DLCIs and the echo DLCI (WForeign, MC_SercommForeign), backlog of 255..300 messages on one DLCI, callbacks registered before the first sercomm_init().",
+ "C07": "Also: spec HopCfg (configuration state machine: Establish / Redefine / Reach / Query) bound to real CMD SETFH datagrams + get_rx_freq/get_tx_freq of the application and to L1CTL_DM_EST_REQ / DM_FREQ_REQ through the handlers sliced from l23_api.c, prim_freq.c and rfch.c; long-lived HoppingParams objects.",
+ "C08": "Also: callbacks that schedule while their frame is executed (ExecuteN / NestedStep, MC_TdmaNested), callbacks reporting success with a positive value.",
+ "C09": "Also: rig with real threads under virtual time (ClckGenThreads: stop() arriving inside the handler, MC + trace validation), one uninterrupted run of a hyperframe + 3000 ticks (ClckGenLong), clock indications of the real Application.",
+ "C10": "Also: bursts with degenerate payload around an intact training sequence; C10 owns the effect clauses on the state components that decide delivered values.",
+ "C11": "Also: spec SchedDispatch bound to the unmodified sched_trx.c (every frame lookup in pull / rx / loss substitution / probe, reconfiguration from another combination), clause ChanNrTasks (chan_nr2mf_task_mask sliced from l23_api.c vs. trxcon's lchan descriptors), clause HistoryFree (frame-number jumps onto every multiframe position).",
+ "C12": "Also: the two-thread clock rig (stop() really ends the worker), ownership of tuning / hopping effect clauses (readiness decides POWERON).",
+ "C13": "Also: burst lengths 148+2 / 444+2, NOPE flag on version-0 objects, the simulator's forwarding path (C13.invalid-message-sent on sessions of the real Application).",
+ "C14": "Also: valid-UTF-8 non-ASCII commands, hostile data from other source addresses with the clauses on where later bursts go, trxcon's receive path on hostile TRXD datagrams as TLC-judged records, timer stand-in that looks at the armed timer after every operation (use after free).",
+ "C15": "Also: captures beyond 64 KiB with skip/count slices, captures given as caller-opened file objects, append_all() over an iterable that reads the capture.",
+ "C17": "Also: NOPE parts whose content still holds a burst value, 1300 PDU objects created before the first datagram; the GMSK-AB / TSC set 1 disagreement is fixed (9a223a7).",
+ "C19": "Also: every delta 2..60 from every position of the superframe, walks of mixed deltas.",
+ "C20": "Also: spec SysinfoMA bound to the SI1 / SI4 handlers sliced from sysinfo.c on one struct gsm48_sysinfo (every truncation point in exactly sized buffers), the SETFH consumer in trxcon (TrxconTrace: command text = the list, or refused as a whole).",
+}
+
 
 def main():
     props = [json.loads(l) for l in open(os.path.join(ROOT, "properties.jsonl"))]
@@ -184,7 +206,7 @@ def main():
                 evidence_file="/verif/evidence/%s.json" % pid,
                 replay_cmd_template="bin/check %s --replay {path}" % pid,
                 engine="tlc",
-                level_claimed=dict(category=c["level"], text=c["text"], design_ref="DESIGN.md section " + c["design"]),
+                level_claimed=dict(category=c["level"], text=c["text"] + (" " + ADDED[pid] if pid in ADDED else ""), design_ref="DESIGN.md section " + c["design"]),
                 level_note=c["note"],
                 technique=c["technique"]))
         else:
@@ -198,7 +220,7 @@ def main():
                       serves_properties=sorted(CHECKS), kind_free_text="TLA+ model checker: exhaustive MC of the specs, batch trace validation, simulation for spec->code replay")],
         checks=checks,
         not_applicable=na,
-        notes="All checks: bin/check <id> quick|thorough. Specs in spec/, drivers in harness/, framework in vf/. known_findings.json lists genuine defects (fixed ones with their fix: commit).")
+        notes="All checks: bin/check <id> quick|thorough. Specs in spec/, drivers in harness/, framework in vf/. known_findings.json lists genuine defects (all repaired by fix: commits in /repo; no open finding). seeded/ holds 160 seeded changes from four rounds of fresh sub-agents with the check that catches each (DESIGN.md 12.5), benign/ behaviour-preserving changes that no check flags (12.9).")
     with open(os.path.join(ROOT, "MANIFEST.json"), "w") as f:
         json.dump(m, f, indent=1)
     print("MANIFEST.json: %d checks, %d not claimed" % (len(checks), len(na)))
